@@ -237,6 +237,16 @@ def coq_step(step, obs, ids, stdlib):
         return "Ask (QGotoOrDef %s %s %s %s)" % (L.cpath(step["path"]), L.cN(step["line"]), L.cN(step["col"]), L.coptdef(obs))
     if k == "name_at":
         return "Ask (QNameAt %s %s %s %s)" % (L.cpath(step["path"]), L.cN(step["line"]), L.cN(step["col"]), L.copt(obs, L.cstr))
+    if k == "refsx":
+        if obs.get("nodef"):
+            return None
+        return "Ask (QRefsX %s %s %s)" % (
+            L.cfdef(obs["def"]), L.clist([L.cusage(u) for u in obs["refs"]]),
+            L.clist(["(%s, %s)" % (L.cusage(g["usage"]), L.coptdef(g["ans"])) for g in obs["gotos"]]))
+    if k == "agree":
+        return "Ask (QAgree %s %s %s)" % (
+            L.cpath(step["path"]), L.clist([L.cfdef(d) for d in obs["available"]]),
+            L.clist(["(%s, %s, %s)" % (L.cstr(x["name"]), L.coptdef(x["closest"]), L.coptdef(x["rff"])) for x in obs["names"]]))
     if k == "dump":
         return "Ask (QDump %s)" % L.cdump(obs, ids)
     raise ValueError(k)
